@@ -53,7 +53,11 @@ pub trait Ep: Sync + Send {
     fn read_many(&self, stream: &[u8], max: usize) -> Vec<Outcome>;
     fn read_async(&self, flavor: Flavor, stream: &[u8], sched: &Schedule) -> Outcome;
     fn write_flavors(&self, frame: &[u8], sched: &Schedule) -> Result<[Vec<u8>; 3], String>;
-    fn encrypted_cycle(&self, key: &[u8; 40], frames: &[Vec<u8>], wflavor: Flavor, rflavor: Flavor, probe: Option<&[u8]>) -> Option<EncCycle>;
+    fn encrypted_cycle(&self, key: &[u8; 40], frames: &[Vec<u8>], wflavor: Flavor, rflavor: Flavor, probe: Option<&[u8]>) -> Option<EncCycle> {
+        self.encrypted_cycle_sched(key, frames, wflavor, rflavor, probe, &Schedule::whole())
+    }
+    /// like encrypted_cycle, the asynchronous decrypting reader gets each message through `read_sched`
+    fn encrypted_cycle_sched(&self, key: &[u8; 40], frames: &[Vec<u8>], wflavor: Flavor, rflavor: Flavor, probe: Option<&[u8]>, read_sched: &Schedule) -> Option<EncCycle>;
 }
 
 const MAX_POLLS: usize = 50_000_000;
@@ -185,7 +189,7 @@ macro_rules! world_ep {
                     Err((m, l)) => Err(format!("write panicked: '{}' at {}", m, rel_location(&l))),
                 }
             }
-            fn encrypted_cycle(&self, key: &[u8; 40], frames: &[Vec<u8>], wflavor: Flavor, rflavor: Flavor, probe: Option<&[u8]>) -> Option<EncCycle> {
+            fn encrypted_cycle_sched(&self, key: &[u8; 40], frames: &[Vec<u8>], wflavor: Flavor, rflavor: Flavor, probe: Option<&[u8]>, read_sched: &Schedule) -> Option<EncCycle> {
                 let whole = Schedule::whole();
                 let (client, server) = crypto_pair!($srp, key);
                 let (mut client_enc, mut client_dec) = client.split();
@@ -266,7 +270,7 @@ macro_rules! world_ep {
                             )
                         }
                         _ => {
-                            let mut s = Scripted::new(buf, &whole);
+                            let mut s = Scripted::new(buf, read_sched);
                             let r = catch(|| match rflavor {
                                 Flavor::Tokio => driven(drive(<$Msg>::tokio_read_encrypted(&mut s, dec), MAX_POLLS), "tokio_read_encrypted"),
                                 _ => driven(drive(<$Msg>::astd_read_encrypted(&mut s, dec), MAX_POLLS), "astd_read_encrypted"),
@@ -431,7 +435,7 @@ macro_rules! login_ep {
                     Err((m, l)) => Err(format!("write panicked: '{}' at {}", m, rel_location(&l))),
                 }
             }
-            fn encrypted_cycle(&self, _: &[u8; 40], _: &[Vec<u8>], _: Flavor, _: Flavor, _: Option<&[u8]>) -> Option<EncCycle> {
+            fn encrypted_cycle_sched(&self, _: &[u8; 40], _: &[Vec<u8>], _: Flavor, _: Flavor, _: Option<&[u8]>, _: &Schedule) -> Option<EncCycle> {
                 None
             }
         }
